@@ -28,6 +28,7 @@ def main(argv=None):
                           ("docs_table", "option names in docs/arguments.rst and runner.HELP vs Adjustments._params"),
                           ("sockets_table", "check_sockets over 1..2 sockets x 4 families x 2 types"),
                           ("host_port_applied", "host= / port= alone or together end up in the listen address, keyword and command-line form"),
+                          ("list_spellings", "list-valued adjustments (listen, trusted_proxy_headers) as one string with blanks / tabs / newlines between and around the elements vs the list form, keyword and command-line"),
                           ("boolean_spellings", "every switch documented in docs/arguments.rst (Default: True/False): 21 keyword spellings and --x / --no-x give the documented boolean")):
         rep = ck.native(routine, {"repo_root": ck.repo.root}, timeout=600)
         entry = {"label": "exhaustive-finite", "table": what, "cases": rep.get("total"), "failures": rep.get("failures", rep)}
